@@ -2,10 +2,10 @@
 
 Leg A: spec/PitchMC.tla - TLC walks (1) the pitch grid of the model of OPN2::noteOn against the fixed-point
        reference of spec/Pitch.tla (in tune within one F-number step, monotone), (2) the octave/multiplier
-       search loops over magnitude classes (termination; the machine as written does not terminate for +inf),
-       (3) the re-pitch rule of one MIDI channel with both pedals (the machine as written skips notes tagged
-       by sostenuto).  The machines "as written" are expected to show their counterexamples; they are compared
-       with what the real library does.
+       search loops over magnitude classes (termination; without the cap of `hertz` the machine does not
+       terminate for +inf), (3) the re-pitch rule of one MIDI channel with both pedals (the variant that skips
+       notes tagged by sostenuto, as in "Don't bend a sustained note", violates the rule).  Each machine has a
+       variant with and without the defect; the recorded executions tell which variant the library is.
 Leg B: the same predicates evaluated by TLC (spec/PitchTrace.tla) on block/F-number writes recorded from the
        real library by harness/drive_pitch (keys x bend values x RPN-0 ranges x note offsets x chip family,
        fine bend sweeps, exhaustive short pedal/bend sequences, portamento, TLC-generated behaviours).
@@ -83,10 +83,11 @@ def model_phase(tier):
     specs = [
         ("grid", dict(part=1, tgrid=tgrid, bgrid=bgrid, ranges=ranges), True),
         ("loops-finite", dict(part=2, emax=12 if q else 40), True),
-        ("loops-inf-as-written", dict(part=2, emax=12, inf=True), False),
-        ("loops-inf-guarded", dict(part=2, emax=12, inf=True, guard=True), True),
+        # two variants of each machine: the conformance leg tells which one the library is
+        ("loops-inf-unguarded", dict(part=2, emax=20, inf=True), False),
+        ("loops-inf-guarded", dict(part=2, emax=20, inf=True, guard=True), True),
         ("repitch", dict(part=3, depth=8 if q else 12), True),
-        ("repitch-as-written", dict(part=3, depth=8, sost=True), False),
+        ("repitch-sostenuto-skip", dict(part=3, depth=8, sost=True), False),
     ]
 
     def one(sp):
@@ -205,13 +206,16 @@ def check_c10(pid, tier, replay):
             if r.violation or not r.ok:
                 print("MODEL-DRIFT: PitchMC %s reports %s %s (model-level result; not a verdict on the code)" % (nm, r.violation or ("rc=%s" % r.rc), r.bad))
         else:
+            # the variant with the defect: its counterexample is a model-level result; the recorded executions decide
+            # whether the library is this variant (then the defect is reported above as a VIOLATION) or the other one
             seen = code_hang if nm.startswith("loops") else code_sost
-            if r.violation and seen:
-                vc.log("[C10] PitchMC %s: counterexample %s of the machine as written is confirmed on the code" % (nm, r.bad))
-            elif r.violation and not seen:
-                print("MODEL-DRIFT: PitchMC %s (the machine as written) reports %s but the real library did not show it: the model describes an older tree" % (nm, r.bad))
-            elif not r.violation and seen:
-                print("MODEL-DRIFT: PitchMC %s found no counterexample but the real library shows the defect" % nm)
+            if not r.violation:
+                print("MODEL-DRIFT: PitchMC %s found no counterexample (the variant is expected to have one)" % nm)
+            else:
+                vc.log("[C10] PitchMC %s: counterexample %s; the real library %s" % (nm, r.bad, "shows it: the library is this variant" if seen
+                       else "does not show it: the library is the other variant"))
+    if code_hang and not any(r.scope["name"] == "loops-inf-unguarded" and r.violation for r in mruns):
+        print("MODEL-DRIFT: the library hangs but no model variant does")
     if counters.get("drifted", 0) or stats.get("drift"):
         print("MODEL-DRIFT: %d of %d recorded frequency writes differ from the model of OPN2::noteOn in spec/Pitch.tla, %d other refinement notes "
               "(leg C); first: %s" % (counters.get("drifted", 0), counters.get("refined", 0), max(0, len(stats.get("drift", [])) - counters.get("drifted", 0)),
